@@ -610,6 +610,7 @@ def arr_getitem(ctx, a, idx):
     else:
         snap = snapshot(a)
         r.elem = lambda o, snap=snap, f=plan.fwd: snap.at(*f(o))
+        r.meta['from_adv_index'] = True
         # injective gather through a slice of an injective index keeps a ghost inverse where available
     return r
 
